@@ -157,7 +157,7 @@ func execScenario(sc *Scenario, verbose bool) *ExecOut {
 	if n := raceErrors() - raceBefore; n > 0 {
 		rv := raceViolation(sc.Property)
 		abandoned := co.Res != nil && co.Res.Overrun
-		if !abandoned && !strings.Contains(rv.Sig, "in ?") { // (see cmdWorker)
+		if !abandoned && strings.Count(rv.Sig, "in ?") < 2 { // (see cmdWorker)
 			out.Viol = append(out.Viol, rv)
 		}
 	}
@@ -291,9 +291,13 @@ func cmdWorker(args []string) int {
 			case co.Res != nil && co.Res.Overrun:
 				// the run was abandoned with tasks still parked: the scheduler reading their partial records races with
 				// them by construction. The no-progress violation is the verdict; this report is not about rux.
-			case strings.Contains(rv.Sig, "in ?"):
-				// one side of the report has no frame of package rux: the harness itself, not the router
-				fmt.Fprintf(os.Stderr, "ruxsim: race report without a rux frame on one side (harness):\n%s\n", rv.Detail)
+			case strings.Count(rv.Sig, "in ?") >= 2 && len(co.Viol) > 0:
+				// neither stack has a frame of package rux, in a run that already violates the property (requests
+				// sharing a context make the harness's own per-request records shared too): not reported separately
+			case strings.Count(rv.Sig, "in ?") >= 2:
+				// neither side of the report has a frame of package rux: the harness itself, not the router.
+				// (One side without a rux frame is normal: handler code reading what rux handed to it.)
+				fmt.Fprintf(os.Stderr, "ruxsim: race report without any rux frame (harness):\n%s\n", rv.Detail)
 				w.Flush()
 				os.Exit(5)
 			default:
